@@ -22,3 +22,32 @@ Theorem C17_node_counts :
     inner_count r + 9 * big_count (inners r) + 1 <= length keys.
 Proof. exact built_counts. Qed.
 Print Assumptions C17_node_counts.
+
+(* (b) the size clause: in filter mode (no stored prefixes, no values) the serialized
+   index is at most 8 bytes per key plus 256 bytes, for every key list that
+   NewSlimTrie accepts - any key lengths and contents.  The hypothesis on the
+   number of keys (2^26) is the range in which the int32 bit positions of the Go
+   creator (17 bits per inner node in Inners) cannot wrap; it is far above the
+   10^5 keys of the property. *)
+Theorem C17_bound :
+  forall (o : opts) (keys : list key) (T : trie),
+    o_inner o = false -> o_leaf o = false ->
+    build o keys None = Ok T ->
+    (N.of_nat (length keys) < 67108864)%N ->
+    (marshal_size T <= 8 * N.of_nat (length keys) + 256)%N.
+Proof. exact filter_size_bound. Qed.
+Print Assumptions C17_bound.
+
+(* the default options of NewSlimTrie are filter mode *)
+Example C17_default_is_filter_mode : o_inner filter_opt = false /\ o_leaf filter_opt = false.
+Proof. split; reflexivity. Qed.
+
+(* non-vacuity: a concrete filter-mode trie (a key that is a prefix of another,
+   the empty key, bytes 0x00/0xff), its node counts and its exact size *)
+Definition ex_keys : list key :=
+  [ []; ["000"%byte]; ["000"%byte; "255"%byte]; ["097"%byte]; ["097"%byte; "098"%byte]; ["097"%byte; "099"%byte]; ["255"%byte] ].
+
+Example C17_hypotheses_satisfiable :
+  exists T r, build filter_opt ex_keys None = Ok T /\ t_root T = Some r /\
+              leaf_count r = 7 /\ inner_count r = 4 /\ marshal_size T = 95%N.
+Proof. vm_compute. eexists. eexists. repeat split. Qed.
